@@ -12,9 +12,10 @@ CONSTANTS
   WriteMutex = TRUE
   WaitActivation = FALSE
   FixNonRequest = FALSE
+  FixCloseReason = FALSE
 INIT Init
 NEXT Next
 VIEW view
-INVARIANTS TypeOK POnePerFrame PContent PInvocations PWholeFrames PRespFIFO PNotesFIFO PAfterActivation PNoNoteAfterUnsub PClientView PReadLimit PCloseIsLast
+INVARIANTS TypeOK POnePerFrame PContent PInvocations PWholeFrames PRespFIFO PNotesFIFO PAfterActivation PNoNoteAfterUnsub PClientView PReadLimit PInternalClose PCloseIsLast
 PROPERTIES PNoWriteAfterExit PExitFinal PErrorMeansNothingWritten
 CHECK_DEADLOCK FALSE
